@@ -33,6 +33,9 @@ BASE = {
     "SE_2_3": ("smooth::SE_K_3<{S}, 2>", 10, 9, 5, False,
                [("template r3<0>()", 0, 3, "vec", None), ("template r3<1>()", 3, 3, "vec", None),
                 ("so3()", 6, 4, "group", "smooth::SO3<{S}>")]),
+    "SE_3_3": ("smooth::SE_K_3<{S}, 3>", 13, 12, 6, False,
+               [("template r3<0>()", 0, 3, "vec", None), ("template r3<1>()", 3, 3, "vec", None), ("template r3<2>()", 6, 3, "vec", None),
+                ("so3()", 9, 4, "group", "smooth::SO3<{S}>")]),
     "SE_1_3": ("smooth::SE_K_3<{S}, 1>", 7, 6, 4, False,
                [("template r3<0>()", 0, 3, "vec", None), ("so3()", 3, 4, "group", "smooth::SO3<{S}>")]),
 }
@@ -110,7 +113,7 @@ def catalogue(tier):
     if tier == "thorough":
         f = "float"
         gs += [base("SO2", f), base("SO3", f), base("SE2", f), base("SE3", f), base("C1", f), base("Galilei", f),
-               base("SE_2_3", f), base("SE_1_3"),
+               base("SE_2_3", f), base("SE_1_3"), base("SE_3_3"),
                bundle([base("SE3"), base("SO2"), vec(3), base("C1")]),
                bundle([bundle([base("SO3"), vec(2)]), base("SE2")], key="B_nested"),
                bundle([base("SO3"), base("SO3")]),
